@@ -516,7 +516,7 @@ func genJBL(rnd *rand.Rand, thorough bool) (jblCase, map[string]bool) { //nolint
 	}
 	// everything buffered before the Clear is gone: ask for it in every way
 	oldSq = append(oldSq, firstSq, 0, 65535)
-	ask := func() {
+	ask := func(tag string) {
 		for k := 0; k < 10 && !l.r.dead; k++ {
 			i := rnd.Intn(len(oldSq))
 			var o opJ
@@ -537,10 +537,10 @@ func genJBL(rnd *rand.Rand, thorough bool) (jblCase, map[string]bool) { //nolint
 				o = opJ{K: "peek", A: 0}
 			}
 			res := l.do(o)
-			b["after-clear-"+o.K+"-"+res.K] = true
+			b[tag+o.K+"-"+res.K] = true
 		}
 	}
-	ask()
+	ask("after-clear-")
 	// refill with fresh packets and play them: after Clear(true) the minimum is 50 and the first packet fixes the head
 	fresh := int64(rnd.Intn(65536))
 	nfresh := 50 + int64(rnd.Intn(30))
@@ -552,7 +552,7 @@ func genJBL(rnd *rand.Rand, thorough bool) (jblCase, map[string]bool) { //nolint
 	if res := l.do(opJ{K: "pop", N: 5 + int64(rnd.Intn(20))}); res.K == "pkt" {
 		b["played-after-clear"] = true
 	}
-	ask()
+	ask("after-refill-")
 
 	return l.c, b
 }
@@ -673,10 +673,12 @@ func scriptedJBL() []jblCase {
 	return []jblCase{
 		// exactly 2^16 buffered (descending arrival), Clear, ask for old packets
 		mk(1, one(opJ{K: "pushrun", N: 65536, A: 65535, D: 65535, B: 90000 + 65535, E: (1 << 32) - 1},
-			opJ{K: "head"}, opJ{K: "peek", A: 1}, opJ{K: "clear"}), asks(65535, 40000, 0)),
+			opJ{K: "head"}, opJ{K: "peek", A: 1}, opJ{K: "peekseq", A: 65535}, opJ{K: "peekseq", A: 40000},
+			opJ{K: "peekseq"}, opJ{K: "clear"}), asks(65535, 40000, 0)),
 		// 2^16 + 5, Clear(true), refill to the new minimum of 50, ask
 		mk(1, one(opJ{K: "pushrun", N: 65541, A: 65535, D: 65535, B: 90000 + 65535, E: (1 << 32) - 1},
-			opJ{K: "clear", A: 1}, opJ{K: "peekseq", A: 65531}, opJ{K: "pushrun", N: 50, A: 7, D: 1, B: 1, E: 1},
+			opJ{K: "pop"}, opJ{K: "popseq", A: 30000}, opJ{K: "popts", A: 90000 + 12345}, opJ{K: "peek", A: 1},
+			opJ{K: "pop", N: 2}, opJ{K: "peek", A: 1}, opJ{K: "peek"}, opJ{K: "clear", A: 1}, opJ{K: "peekseq", A: 65531}, opJ{K: "pushrun", N: 50, A: 7, D: 1, B: 1, E: 1},
 			opJ{K: "pop", N: 3}), asks(65535, 8, 1)),
 		// minimum start count 65535: refused up to 65534 buffered, playing from the first packet at 65535
 		mk(65535, one(opJ{K: "pushrun", N: 101, A: 65500, D: 1, B: 5, E: 90}, opJ{K: "pop"}, opJ{K: "popseq", A: 65500},
